@@ -85,7 +85,7 @@ Theorem C14_broadcast_toggle : forall e loc old a t,
   arg_T a = Some t ->
   rToggleCb e loc old [a] = Some (if old =? t then (old, []) else (t, [Bcast (mk loc [a])])) /\
   rArrayTCb_elem e loc old [a] = Some (t, if old =? t then [] else [Bcast (mk loc [a])]).
-Proof. exact (fun e loc old a t H => conj (rToggleCb_set e loc old a t H) (rArrayTCb_elem_set e loc old a t H)). Qed.
+Proof. exact toggle_set. Qed.
 
 (* exactly one undo event carrying (address, true previous value, new value)
    iff the stored value changed *)
